@@ -246,7 +246,7 @@ def _check_wakeups(check, an: Analysis):
                 'truth', 'isinstance(%s, Tracked)' % operand)]
             if tracked and tracked[-1]['value'] is True:
                 listening = any(e.kind == 'call' and isinstance(e.node, ast.Call) and
-                                ast.unparse(e.node.func) == '%s.__add_listener__' % operand
+                                rules.text_at(path, e, e.node.func) == '%s.__add_listener__' % operand
                                 and [ast.unparse(a) for a in e.node.args] == ['self']
                                 for e in path.events)
                 if not listening:
@@ -476,7 +476,7 @@ def _parks_in_own_list(an: Analysis, qn: str) -> bool:
             if event.kind == 'call' and isinstance(event.node, ast.Call) and \
                     isinstance(event.node.func, ast.Attribute) and \
                     event.node.func.attr == 'append' and \
-                    ast.unparse(event.node.func.value) == 'self._waiting' and \
+                    rules.text_at(path, event, event.node.func.value) == 'self._waiting' and \
                     event.recv == qn:
                 return True
     return False
